@@ -23,8 +23,35 @@ def c04(tier, rep):
 
 
 def c18(tier, rep):
+    import l0 as L, os, glob
+    from common import REPO
+    rep.extra["rule"] = ("small-step kind-level parser: every sequence over the look-ahead alphabet after Feature/Scenario/Step (queue discipline, "
+                         "partition); menu: every sequence of look-ahead-heavy real lines; traces: each delivered token and its printed listing")
+    # queue discipline and partition on the small-step specification, replayed through the real Parser.parse
+    n = 5 if tier == "quick" else 6
+    cnt, bad, res, behs = L.replay_sequences(n, "LaAlphabet", "ScenarioPrefix", max_errs=2)
+    rep.add_tlc(f"MC_L0[LaAlphabet,ScenarioPrefix,N={n}]", res, f"{cnt} kind sequences replayed; Inv_Fifo, Inv_Partition, Inv_Accepted, Inv_StackIsPath, Inv_Linear")
+    rep.traces += cnt
+    for inv in sorted(set(res.invariant_violations)):
+        rep.violation({"kind": "spec-invariant", "invariant": inv}, {"engine": "MC_L0", "what": f"{inv} violated", "tlc_tail": res.out[-3000:]})
+    for b in bad[:10]:
+        rep.violation({"kind": "l0-replay:" + b["field"]}, {"engine": "l0", "what": "real Parser.parse differs from the small-step specification", "detail": b})
+    rep.sample({"kinds": behs[len(behs) // 2]["input"], "delivered": behs[len(behs) // 2]["delivered"], "reported": behs[len(behs) // 2]["reported"]})
     E.menu(rep, M.LOOKAHEAD, 4 if tier == "quick" else 5, invariants=["Inv_C18"], label="lookahead")
-    E.traces(rep, E.record_all(std_sources(tier, 300, 3000), modes=("collect", "stop")), "corpus+gen+noisy")
+    # the printed token listing equals the reference listings of the acceptance corpus
+    import record as R
+    for f in sorted(glob.glob(os.path.join(REPO, "testdata", "good", "*.feature"))):
+        ref = f + ".tokens"
+        if not os.path.exists(ref):
+            continue
+        src = open(f, encoding="utf8", newline="").read()
+        got = "\n".join("".join(map(chr, l)) for l in R.token_listing(src)) + "\n"
+        want = open(ref, encoding="utf8", newline="").read()
+        rep.case(("tokens-file", os.path.basename(f)))
+        if got != want:
+            rep.violation({"kind": "reference-listing"}, {"engine": "corpus", "what": "token listing differs from the reference .tokens file", "file": f,
+                                                          "first_diff": next(((a, b) for a, b in zip(got.split("\n"), want.split("\n")) if a != b), None)})
+    E.traces(rep, E.record_all(std_sources(tier, 300, 3000), modes=("collect", "stop"), listing=True), "corpus+gen+noisy")
 
 
 def c14(tier, rep):
@@ -38,7 +65,72 @@ def c01(tier, rep):
     E.traces(rep, E.record_all(std_sources(tier, 300, 3000), modes=("collect", "stop")), "corpus+gen+noisy")
 
 
-CHECKS = {"C01": c01, "C03": c03, "C04": c04, "C14": c14, "C18": c18}
+def c02(tier, rep):
+    import table as T, l0 as L
+    from common import Scratch, run_tlc, MachineryError
+    rep.extra["rule"] = ("programs: 6 generated parsers compared by bisimulation with the table derived from gherkin.berp; MC_Language: exact product "
+                         "automaton; transitions: every (position, kind, look-ahead oracle); sequences: every kind sequence <= N through the real "
+                         "Parser.parse with a kind-level stub matcher; traces: builder events of real documents")
+    # (a) the grammar transcription and the derived table (TLC: derivation + structural ASSUMEs)
+    dump, res = T.spec_table()
+    rep.add_tlc("MC_Table", res, "table derived from Grammar!Rules; ASSUME Deterministic, EofFirstOtherLast, StackDiscipline, Sizes")
+    for d in T.compare_grammar(dump, *T.berp_grammar()[:3]):
+        rep.violation({"kind": "grammar-transcription"}, {"engine": "table", "what": "Grammar.tla Rules/Hints differ from /repo/gherkin.berp (the specification is stale)", "detail": d})
+    # (b) bisimulation with parser.py and the five sibling generated parsers
+    progs = []
+    try:
+        progs.append(T.extract_python())
+    except T.NotExtractable as e:
+        rep.assumptions.append(f"parser.py not of the generated shape ({e}); static comparison skipped, learned behaviour (c)/(d) decides")
+    for l in T.SIBLINGS:
+        progs.append(T.extract_sibling(l))
+    pairs_py = None
+    for p in progs:
+        pairs, bad = T.bisimulate(dump, p)
+        if p["lang"] == "python":
+            pairs_py = pairs
+        rep.case(("program", p["lang"]))
+        for b in bad[:5]:
+            rep.violation({"kind": "table-mismatch", "program": p["lang"]},
+                          {"engine": "bisimulation", "what": f"{p['lang']} parser differs from the table derived from gherkin.berp", "detail": b})
+    rep.extra["programs"] = len(progs)
+    rep.sample({"program": "python/gherkin/parser.py", "states": len(progs[0]["states"]), "transitions": sum(len(s["trans"]) for s in progs[0]["states"].values())})
+    # (c) language equivalence, exact
+    with Scratch("lang") as sc:
+        res = run_tlc(sc, "MC_Language", workers=4, timeout=600, extra=["-continue"])
+    if not res.finished:
+        raise MachineryError("MC_Language did not finish\n" + res.out[-2000:])
+    rep.add_tlc("MC_Language", res, "parser table x grammar NFA product, history hidden: all lengths")
+    for inv in sorted(set(res.invariant_violations)):
+        rep.violation({"kind": "spec-invariant", "invariant": inv}, {"engine": "MC_Language", "what": f"{inv} violated", "tlc_tail": res.out[-3000:]})
+    # (d) every transition of the real parser.py, driven through Parser.match_token
+    if pairs_py is not None:
+        cases, bad, cov = L.drive_transitions(dump, pairs_py)
+        rep.extra["transitions_driven"] = cases
+        rep.extra["transitions_covered"] = len(cov)
+        rep.traces += cases
+        for b in bad[:10]:
+            rep.violation({"kind": "transition"}, {"engine": "drive", "what": "Parser.match_token differs from the derived table", "detail": b})
+        rep.sample({"driven": "every (position, kind, oracle)", "cases": cases, "transitions_covered": len(cov)})
+    # (e) whole kind sequences through the real Parser.parse
+    for (n, alpha, prefix) in ([(4, "Kinds", "NoPrefix"), (4, "LaAlphabet", "ScenarioPrefix")] if tier == "quick" else [(5, "Kinds", "NoPrefix"), (6, "LaAlphabet", "ScenarioPrefix")]):
+        cnt, bad, res, behs = L.replay_sequences(n, alpha, prefix, max_errs=1)
+        rep.add_tlc(f"MC_L0[{alpha},{prefix},N={n}]", res, f"{cnt} kind sequences replayed through Parser.parse (stub matcher)")
+        rep.traces += cnt
+        for b in behs:
+            rep.case(tuple(b["input"]))
+        for inv in sorted(set(res.invariant_violations)):
+            if inv in ("Inv_StackIsPath",):
+                rep.violation({"kind": "spec-invariant", "invariant": inv}, {"engine": "MC_L0", "what": f"{inv} violated", "tlc_tail": res.out[-3000:]})
+        for b in bad[:10]:
+            rep.violation({"kind": "l0-replay:" + b["field"]}, {"engine": "l0", "what": "real Parser.parse differs from the small-step specification", "detail": b})
+        rep.sample({"kinds": behs[len(behs) // 2]["input"], "events": behs[len(behs) // 2]["events"][:3]})
+    # (f) real text: builder events and derivation predicate
+    E.menu(rep, M.BASE, 3 if tier == "quick" else 4, invariants=["Inv_C02"], label="base")
+    E.traces(rep, E.record_all(std_sources(tier, 200, 2000)), "corpus+gen+noisy")
+
+
+CHECKS = {"C02": c02, "C01": c01, "C03": c03, "C04": c04, "C14": c14, "C18": c18}
 
 
 def replay(prop: str, path: str) -> int:
